@@ -136,6 +136,11 @@ def gen_case(rng, gens=GENERATORS, max_total=6):
             props = reorder(props)
     case.update(slates=slates, props=props, cohesion=cohesion, intervals=intervals)
     case["decoy"] = rng.random() < 0.3
+    if gen == "CambridgeSampler" and rng.random() < 0.5:
+        # the historical W / C roles given explicitly, in either assignment (the W bloc need not be the larger one)
+        wc = list(blocs)
+        rng.shuffle(wc)
+        case["wc"] = wc
     if rng.random() < 0.12:
         # construct through BallotGenerator.from_params: intervals drawn from Dirichlet(alpha) via numpy's default_rng
         # (OS entropy unless patched -- the seam that makes this repeatable)
@@ -292,7 +297,8 @@ def _build(case):
     elif gen == "AlternatingCrossover":
         g = bg.AlternatingCrossover(**kw)
     elif gen == "CambridgeSampler":
-        g = bg.CambridgeSampler(**kw)
+        wc = case.get("wc")
+        g = bg.CambridgeSampler(W_bloc=wc[0], C_bloc=wc[1], **kw) if wc else bg.CambridgeSampler(**kw)
     elif gen == "name_Cumulative":
         g = bg.name_Cumulative(num_votes=case["num_votes"], **kw)
     elif gen == "slate_PlackettLuce":
